@@ -270,6 +270,10 @@ let handle_op (h : hist) (line : string) =
        from the space that was reserved for it: no request to the global allocator *)
     if kind = "alloc" && List.mem "probe_c11" args && (o.reqs <> [] || not impl_ok) then
       report_spec ~prop:"C11" ~pred:"slot_reusable_without_request" ~detail:(ires ^ "_reqs=" ^ string_of_int (List.length o.reqs));
+    (* C18: probes of chunk_capacity() and of the constructor's capacity must be served in place *)
+    if kind = "alloc" && (List.mem "probe_c18" args || List.mem "probe_c18cap" args) && (o.reqs <> [] || not impl_ok) then
+      report_spec ~prop:"C18" ~pred:(if List.mem "probe_c18" args then "capacity_not_overstated" else "constructor_capacity_honoured")
+        ~detail:(ires ^ "_reqs=" ^ string_of_int (List.length o.reqs));
     (* C07: chunks obtained under a limit *)
     let lim_before = b0.limit in
     let ab_run = ref h.p_ab in
@@ -316,11 +320,18 @@ let handle_op (h : hist) (line : string) =
      | "dealloc" -> (match mi.dies with Some d -> h.live <- remove_live d h.live | None -> ())
      | "twbegin" -> if impl_ok then h.tw_sizes <- (match mi.mop with OTwBegin l -> l.l_size | _ -> N0) :: h.tw_sizes
      | _ -> ());
+    let via_allocator = (kind = "grow" || kind = "shrink" || (kind = "alloc" && List.mem "allocate" args)) in
     let check_block p size align =
-      if not (sp_block_ok k h.held h.live p size) then
+      if not (sp_block_ok k h.held h.live p size) then begin
         report_spec ~prop:"C01" ~pred:"sp_block_ok" ~detail:(Printf.sprintf "p=%s size=%s" (string_of_n p) (string_of_n size));
-      if not (sp_aligned k p align) then
-        report_spec ~prop:"C04" ~pred:"sp_aligned" ~detail:(Printf.sprintf "p=%s align=%s malign=%s" (string_of_n p) (string_of_n align) (string_of_n k.k_malign)) in
+        (* every block in these histories may have been through Allocator::{grow,shrink,deallocate} *)
+        report_spec ~prop:"C12" ~pred:"block_fits_and_is_disjoint" ~detail:(Printf.sprintf "p=%s size=%s" (string_of_n p) (string_of_n size))
+      end;
+      if not (sp_aligned k p align) then begin
+        report_spec ~prop:"C04" ~pred:"sp_aligned" ~detail:(Printf.sprintf "p=%s align=%s malign=%s" (string_of_n p) (string_of_n align) (string_of_n k.k_malign));
+        if via_allocator then
+          report_spec ~prop:"C12" ~pred:"block_aligned" ~detail:(Printf.sprintf "p=%s align=%s" (string_of_n p) (string_of_n align))
+      end in
     (match kind, impl_addr, mi.born with
      | ("alloc" | "grow" | "shrink" | "realloc"), Some p, Some (size, align) ->
        (match mi.dies with Some d -> h.live <- remove_live d h.live | None -> ());
@@ -375,7 +386,10 @@ let () =
          | 'B' -> pending := Some line
          | 'O' -> pending := None; (match !cur with Some h -> (try handle_op h line with Failure m -> report_mismatch ~who:"driver" ~field:"exception" ~model:m ~impl:line) | None -> ())
          | 'C' ->
-           if starts_with line "C bad" then report_spec ~prop:"C02" ~pred:"contents_intact" ~detail:(String.map (fun c -> if c = ' ' then '_' else c) line)
+           if starts_with line "C bad" then begin
+             report_spec ~prop:"C02" ~pred:"contents_intact" ~detail:(String.map (fun c -> if c = ' ' then '_' else c) line);
+             report_spec ~prop:"C12" ~pred:"contents_preserved" ~detail:(String.map (fun c -> if c = ' ' then '_' else c) line)
+           end
            else bump_count "content_checks"
          | 'K' -> report_spec ~prop:(if (try ignore (Str.search_forward (Str.regexp "call order\\|try_fill result") line 0); true with Not_found -> false) then "C02" else "C11")
                     ~pred:"driver_check" ~detail:(String.map (fun c -> if c = ' ' then '_' else c) line)
